@@ -33,7 +33,7 @@ STUB = ["wall clock", "uuid source", "file system under FileAdapter", "SdSimulat
 ASSUMPTIONS = ["automatic OPTIONS answers are Flask's own and excluded", "credential shapes that contain the token as a whole word are not sent (no verdict)",
                "states are sampled, the intruder product per state is complete"]
 FAULT_KINDS = ["unauthorised_request"]
-PROBES = ["intruder_while_authorised_request_in_flight", "authorised_request_failed_before_burst", "state_live_session", "state_locked_session", "state_expired_externalised", "state_no_instances",
+PROBES = ["second_server_in_process", "intruder_while_authorised_request_in_flight", "authorised_request_failed_before_burst", "state_live_session", "state_locked_session", "state_expired_externalised", "state_no_instances",
           "authorised_twin_request_changes_state", "malformed_header_500"]
 EXHAUSTIVE = {"quick": False, "thorough": False}
 
@@ -69,6 +69,7 @@ def shapes(T):
         ("one_char", "Bearer " + repl),
         ("basic_wrong", "Basic " + T[::-1]),
         ("two_words_wrong", "Bearer " + T[:-1] + " " + T[1:]),
+        ("other_servers_token", "Bearer 0therTok"),
     ]
 
 
@@ -101,12 +102,15 @@ def generate(spec):
         # authorised requests that FAIL inside their handler (unknown scenario, empty body, unknown instance ...)
         ops.append({"op": "auth_fail", "which": rng.choice(["equations_unknown", "agents_empty", "run_unknown_manager", "begin_unknown_instance",
                                                             "equations_no_json"])})
+    if rng.random() < 0.35:
+        # another BptkServer object in the same process (same import name), configured with another token or with none
+        ops.append({"op": "second_server", "token": rng.choice([None, "0therTok"])})
     if rng.random() < 0.5:
         ops.append({"op": "concurrent_intruders", "name": "live", "n": rng.choice([2, 3]),
                     "sched": {"kind": "random", "seed": rng.randrange(2**32), "p": rng.choice([0.05, 0.2, 0.5])}})
     rng.shuffle(ops)
     # keep per-instance order (start < begin < step/hold/expire)
-    order = {"start": 0, "begin": 1, "step": 2, "hold_stream": 3, "expire": 4, "run": 2, "auth_fail": 2, "concurrent_intruders": 2}
+    order = {"start": 0, "begin": 1, "step": 2, "hold_stream": 3, "expire": 4, "run": 2, "auth_fail": 2, "concurrent_intruders": 2, "second_server": 2}
     by = {}
     for o in ops:
         by.setdefault(o.get("name", "_"), []).append(o)
@@ -163,6 +167,15 @@ def _auth_op(w, st, o, held):
         return r
     if op == "run":
         return w.post("/run", {"scenario_managers": ["smA"], "scenarios": ["alt"], "equations": ["stock", "constant"], "settings": o["settings"]})
+    if op == "second_server":
+        from BPTK_Py.server import BptkServer
+        from worlds.server_world import Resp
+        other = BptkServer("verif_server", w._factory(), None, o["token"])
+        other.logger.disabled = True
+        st.setdefault("others", []).append(other)
+        # what the OTHER server accepts must not matter to the first one; use it once so that it is really alive
+        rr = other.test_client().get("/healthy")
+        return Resp(rr.status_code, rr.get_data(as_text=True))
     if op == "auth_fail":
         wh = o["which"]
         if wh == "equations_unknown":
@@ -349,6 +362,8 @@ def _history(case, with_bursts, log, res):
                     except Exception:
                         pass
                     responses.append([n, o["op"], r.status, text])
+                    if o["op"] == "second_server" and with_bursts:
+                        res.probe("second_server_in_process")
                     if o["op"] == "auth_fail" and with_bursts:
                         res.probe("authorised_request_failed_before_burst")
                     log.add("auth", n, o["op"], r.status)
